@@ -18,7 +18,7 @@
    ktI/ktR (key types 0 Ed25519 1 ECDSA 2 Secp256k1 3 RSA) are not read by the model: the symbolic
    model is uniform in the key type; the dimension is covered by the correspondence. *)
 From Coq Require Import List NArith ZArith Bool.
-From Verif Require Import lib.Wire c01.Model.
+From Verif Require Import lib.Wire c01.Model c01.ModelTLS gen.Consts_c01.
 Import ListNotations.
 Local Open Scope Z_scope.
 
@@ -268,14 +268,276 @@ Definition monitor_noise (l : list Z) : list Z :=
   | Some (sc, o) => judge_sessions sc 0 o
   end.
 
+(* ================================ TLS ======================================================
+   Certificate chains on the wire:
+     CHAIN = n cert_1 .. cert_n
+     cert  = key signer intact timeok nexts ext_1 .. ext_nexts
+     ext   = kind crit vk pub ssigner sprefix sover
+             kind 1 = the libp2p extension, k >= 2 = some other extension with OID number k
+             vk 1 = ASN.1 signedKey, 0 = bytes that are not ASN.1
+             pub 1..3 = marshalled identity key A/B/E, 4 junk, 5 empty
+             ssigner 1..3 = signature by that identity key over (sprefix = 1: "libp2p-tls-handshake:" ++)
+                            the PKIX bytes of certificate key [sover]; 4 junk, 5 empty
+   tag 2 (the VerifyPeerCertificate callback of ConfigForPeer(exp), and PubKeyFromCertChain directly):
+     2 kt exp CHAIN  cls keyid  dcls dkeyid        cls 0 = accepted, 1..8 error class (ModelTLS)
+   tag 3 (a real handshake of two tls.Transports whose certificates were replaced):
+     3 ktC ktS  idC expC holdsC CHAIN_C  idS expS holdsS CHAIN_S  ek dir rec pos
+       clsC ridC rkidC postC  clsS ridS rkidS postS
+     ek as for Noise (8 = duplicate of the last handshake record of a direction), dir 0 = client->server,
+     rec = index among that direction's handshake records; cls 0 completed / 1 failed;
+     post 0 not attempted, 1 = the peer's byte arrived over the secured connection, 2 = error
+   tag 4 (swarm): 4 local p kind remote  ok rremote
+     kind 0 = dialAddr, 1 = DialPeer, 2 = dialPeer over a scripted dial sync; the transport hands back a connection whose RemotePeer() is
+     [remote] (0 = it fails); ok 1 = a connection was returned to the caller, rremote its RemotePeer() *)
+
+Definition pubterm (z : Z) : nt :=
+  if (1 <=? z) && (z <=? 3) then NPub (Z.to_N z) else if z =? 4 then NJunk 920 else NEmpty.
+Definition sigterm (signer prefixed over : Z) : nt :=
+  if (1 <=? signer) && (signer <=? 3)
+  then NSig (Z.to_N signer) (if zbool prefixed then NCat TLSPREFIX (certpub (Z.to_N over)) else certpub (Z.to_N over)) 1
+  else if signer =? 4 then NJunk 921 else NEmpty.
+
+Definition ext_of (kind crit vk pub ssigner sprefix sover : Z) : ext :=
+  if kind =? 1
+  then XLibp2p (zbool crit) (if zbool vk then XSigned (pubterm pub) (sigterm ssigner sprefix sover) else XJunk)
+  else XOther (Z.to_N kind) (zbool crit).
+
+Fixpoint decode_exts (n : nat) (l : list Z) : option (list ext * list Z) :=
+  match n with
+  | O => Some ([], l)
+  | S n' =>
+      match l with
+      | k :: c :: vk :: pb :: ss :: sp :: so :: r =>
+          match decode_exts n' r with
+          | Some (es, r') => Some (ext_of k c vk pb ss sp so :: es, r')
+          | None => None
+          end
+      | _ => None
+      end
+  end.
+
+Fixpoint decode_certs (n : nat) (l : list Z) : option (list cert * list Z) :=
+  match n with
+  | O => Some ([], l)
+  | S n' =>
+      match l with
+      | key :: signer :: intact :: timeok :: ne :: r =>
+          match decode_exts (Z.to_nat ne) r with
+          | Some (es, r1) =>
+              match decode_certs n' r1 with
+              | Some (cs, r2) =>
+                  Some (mkCert (Z.to_N key) (Z.to_N signer) (zbool intact) (zbool timeok) es :: cs, r2)
+              | None => None
+              end
+          | None => None
+          end
+      | _ => None
+      end
+  end.
+
+Definition decode_chain (l : list Z) : option (list cert * list Z) :=
+  match l with
+  | n :: r => if (0 <=? n) && (n <=? 8) then decode_certs (Z.to_nat n) r else None
+  | [] => None
+  end.
+
+Definition expect_of (z : Z) : option N := if z =? 0 then None else Some (Z.to_N z).
+
+(* "the chain certifies identity key k": one certificate whose first libp2p
+   extension holds k's public key and a signature BY k over prefix ++ THIS
+   certificate's key ... *)
+Definition certifies (chain : list cert) (k : N) : bool :=
+  match chain with
+  | [c] =>
+      match find_libp2p (c_exts c) with
+      | Some (XSigned pub sg) =>
+          nt_eqb pub (NPub k) &&
+          match sg with
+          | NSig k' m _ => (k' =? k)%N && nt_eqb m (NCat TLSPREFIX (certpub (c_key c)))
+          | _ => false
+          end
+      | _ => false
+      end
+  | _ => false
+  end.
+
+(* ... and which is signed by its own key over the bytes as they are (not
+   signed with a substituted key, not altered): 0 = fine, 1 = signed by another
+   key, 2 = altered after signing *)
+Definition self_signature_defect (chain : list cert) : Z :=
+  match chain with
+  | [c] => if negb (c_signer c =? c_key c)%N then 1 else if negb (c_intact c) then 2 else 0
+  | _ => 0
+  end.
+
+(* judgement of an accepted chain: clause 6 = not certified by the reported key,
+   clause 8 = certified, but the certificate itself is not validly self-signed *)
+Definition judge_chain (who : Z) (chain : list cert) (kid : Z) : list Z :=
+  if negb (certifies chain (Z.to_N kid)) then [ERR_PROPERTY; who; 6; kid]
+  else if negb (self_signature_defect chain =? 0) then [ERR_PROPERTY; who; 8; self_signature_defect chain]
+  else [].
+
+Definition res_z (r : nt + N) : Z * Z :=
+  match r with
+  | inl pub => (0, match id_of_key pub with Some i => Z.of_N i | None => 0 end)
+  | inr e => (Z.of_N e, 0)
+  end.
+
+Definition conform_verify (l : list Z) : list Z :=
+  match l with
+  | _ :: exp :: r =>
+      match decode_chain r with
+      | Some (chain, [cls; kid; dcls; dkid]) =>
+          let '(mc, mk) := res_z (verify_peer tls_self_signature_checked (expect_of exp) chain) in
+          let '(dc, dk) := if forallb parse_ok chain then res_z (pubkey_from_chain tls_self_signature_checked chain) else (8, 0) in
+          if negb ((mc =? cls) && (mk =? kid)) then [ERR_MISMATCH; 0; mc; mk; cls; kid]
+          else if negb ((dc =? dcls) && (dk =? dkid)) then [ERR_MISMATCH; 1; dc; dk; dcls; dkid]
+          else []
+      | _ => [ERR_MALFORMED; 0]
+      end
+  | _ => [ERR_MALFORMED; 0]
+  end.
+
+(* tls_key_is_certified, judged on the implementation's own answers *)
+Definition monitor_verify (l : list Z) : list Z :=
+  match l with
+  | _ :: exp :: r =>
+      match decode_chain r with
+      | Some (chain, [cls; kid; dcls; dkid]) =>
+          orelse (if cls =? 0 then judge_chain 0 chain kid else [])
+         (orelse (if dcls =? 0 then judge_chain 1 chain dkid else [])
+                 (if (cls =? 0) && negb (exp =? 0) && negb (kid =? exp) then [ERR_PROPERTY; 0; 3; kid; exp] else []))
+      | _ => [ERR_MALFORMED; 0]
+      end
+  | _ => [ERR_MALFORMED; 0]
+  end.
+
+(* ---- tag 3: handshakes ------------------------------------------------------------------------ *)
+Record tobs := mkTobs { to_cls : Z; to_rid : Z; to_rkid : Z; to_post : Z }.
+
+Record tcase := mkTcase {
+  tc_idC : Z; tc_c : tside; tc_idS : Z; tc_s : tside;
+  tc_ek : Z; tc_dir : Z; tc_rec : Z;
+  tc_oc : tobs; tc_os : tobs
+}.
+
+Definition decode_tls (l : list Z) : option tcase :=
+  match l with
+  | _ :: _ :: idC :: expC :: holdsC :: r =>
+      match decode_chain r with
+      | Some (chC, idS :: expS :: holdsS :: r2) =>
+          match decode_chain r2 with
+          | Some (chS, [ek; dir; rc; _; c1; c2; c3; c4; s1; s2; s3; s4]) =>
+              Some (mkTcase idC (mkTside (expect_of expC) chC (zbool holdsC))
+                            idS (mkTside (expect_of expS) chS (zbool holdsS))
+                            ek dir rc (mkTobs c1 c2 c3 c4) (mkTobs s1 s2 s3 s4))
+          | _ => None
+          end
+      | _ => None
+      end
+  | _ => None
+  end.
+
+Definition tedit_of (ek dir rc : Z) : tedit :=
+  if (ek =? 0) || (ek =? 8) then TNone
+  else if dir =? 0
+       then (if (rc =? 0) && negb (ek =? 6) then TClientHello else TClientFlight)
+            (* a duplicated ClientHello: the client sees an undisturbed server flight; the server
+               finds a second ClientHello where the client's flight should be *)
+       else TServerFlight.
+
+Definition tobs_of (r other : tres) (with_post : bool) : tobs :=
+  match r with
+  | TDone id k => mkTobs 0 (Z.of_N id) (match id_of_key k with Some i => Z.of_N i | None => 0 end)
+                         (if with_post then (if tfailed other then 2 else 1) else 0)
+  | TFail _ => mkTobs 1 0 0 0
+  end.
+
+Definition tobs_agree (m o : tobs) (with_post : bool) : bool :=
+  (to_cls m =? to_cls o) &&
+  (if to_cls m =? 0 then (to_rid m =? to_rid o) && (to_rkid m =? to_rkid o) &&
+                         (negb with_post || (to_post m =? to_post o)) else true).
+
+Definition conform_tls (l : list Z) : list Z :=
+  match decode_tls l with
+  | None => [ERR_MALFORMED; 0]
+  | Some tc =>
+      let '(rc, rs) := tls_run tls_self_signature_checked (tc_c tc) (tc_s tc) (tedit_of (tc_ek tc) (tc_dir tc) (tc_rec tc)) in
+      let wp := tc_ek tc =? 0 in
+      let mc := tobs_of rc rs wp in let ms := tobs_of rs rc wp in
+      if negb (tobs_agree mc (tc_oc tc) wp) then [ERR_MISMATCH; 0; to_cls mc; to_rid mc; to_post mc; to_cls (tc_oc tc); to_rid (tc_oc tc); to_post (tc_oc tc)]
+      else if negb (tobs_agree ms (tc_os tc) wp) then [ERR_MISMATCH; 1; to_cls ms; to_rid ms; to_post ms; to_cls (tc_os tc); to_rid (tc_os tc); to_post (tc_os tc)]
+      else []
+  end.
+
+(* the property on one TLS endpoint: [me] completed with observation [o]; the
+   other endpoint holds identity key [oid] and presented [other] *)
+Definition judge_tls_side (me other : tside) (oid : Z) (received_edited : bool) (o : tobs) : list Z :=
+  if negb (to_cls o =? 0) then []
+  else
+    orelse (if to_rid o =? to_rkid o then [] else [ERR_PROPERTY; 1; to_rid o; to_rkid o])
+   (orelse (if to_rid o =? oid then [] else [ERR_PROPERTY; 2; to_rid o; oid])
+   (orelse (match t_expect me with
+            | Some x => if to_rid o =? Z.of_N x then [] else [ERR_PROPERTY; 3; to_rid o; Z.of_N x]
+            | None => []
+            end)
+   (orelse (if received_edited then [ERR_PROPERTY; 4] else [])
+           (* certified with a substituted key, or a certificate whose private key the peer does not hold *)
+   (orelse (if t_holds other then [] else [ERR_PROPERTY; 5])
+           (match judge_chain 0 (t_chain other) (to_rid o) with [] => [] | _ :: _ :: r => ERR_PROPERTY :: r | d => d end))))).
+
+Definition monitor_tls (l : list Z) : list Z :=
+  match decode_tls l with
+  | None => [ERR_MALFORMED; 0]
+  | Some tc =>
+      let e := tedit_of (tc_ek tc) (tc_dir tc) (tc_rec tc) in
+      match judge_tls_side (tc_c tc) (tc_s tc) (tc_idS tc) (match e with TServerFlight => true | _ => false end) (tc_oc tc) with
+      | [] => tagd 0 1 (judge_tls_side (tc_s tc) (tc_c tc) (tc_idC tc)
+                          (match e with TClientHello | TClientFlight => true | _ => false end) (tc_os tc))
+      | d => tagd 0 0 d
+      end
+  end.
+
+(* ---- tag 4: swarm dial ----------------------------------------------------------------------------- *)
+Definition dial_model (kind : Z) (local p : N) (remote : Z) : dialres :=
+  let t := if remote =? 0 then DErr else DConn (Z.to_N remote) in
+  if kind =? 0 then dial_addr local p t
+  else if kind =? 1 then dial_peer local p (dial_addr local p t)   (* DialPeer: dial sync over dialAddr *)
+  else dial_peer local p t.                                        (* whatever the dial sync hands back *)
+
+Definition conform_dial (l : list Z) : list Z :=
+  match l with
+  | [local; p; kind; remote; ok; rr] =>
+      match dial_model kind (Z.to_N local) (Z.to_N p) remote with
+      | DErr => if ok =? 0 then [] else [ERR_MISMATCH; 0; 0; ok; rr]
+      | DConn r => if (ok =? 1) && (rr =? Z.of_N r) then [] else [ERR_MISMATCH; 0; 1; Z.of_N r; ok; rr]
+      end
+  | _ => [ERR_MALFORMED; 0]
+  end.
+
+(* a dial for peer P never hands back a connection authenticated as anyone else *)
+Definition monitor_dial (l : list Z) : list Z :=
+  match l with
+  | [local; p; kind; remote; ok; rr] =>
+      if (ok =? 1) && negb (rr =? p) then [ERR_PROPERTY; 0; 7; rr; p] else []
+  | _ => [ERR_MALFORMED; 0]
+  end.
+
+(* ---- dispatch ----------------------------------------------------------------------------------------- *)
 Definition conform_case (l : list Z) : list Z :=
   match l with
   | 1 :: r => conform_noise r
+  | 2 :: r => conform_verify r
+  | 3 :: r => conform_tls r
+  | 4 :: r => conform_dial r
   | _ => [ERR_MALFORMED; 99]
   end.
 
 Definition monitor_case (l : list Z) : list Z :=
   match l with
   | 1 :: r => monitor_noise r
+  | 2 :: r => monitor_verify r
+  | 3 :: r => monitor_tls r
+  | 4 :: r => monitor_dial r
   | _ => [ERR_MALFORMED; 99]
   end.
